@@ -312,7 +312,15 @@ pub fn main_with(entries: Vec<GrammarEntry>) {
             };
             *families_seen.lock().unwrap().entry(e.family.to_string()).or_default() += cases.len() as u64;
             l.count("rules_driven");
+            let blown_before = l.counters.get("step_budget_blowups").copied().unwrap_or(0);
             for (ci, c) in cases.iter().enumerate() {
+                // a rule on which the step budget (100 x the reference + 50 000) was exceeded 25 times does
+                // not terminate in reasonable time on this tree: C11 has its violations, and every further
+                // case would only burn the whole budget again
+                if l.counters.get("step_budget_blowups").copied().unwrap_or(0) >= blown_before + 25 {
+                    l.count_n("cases_skipped_after_repeated_step_budget_blowups", (cases.len() - ci) as u64);
+                    break;
+                }
                 if let Some(f) = hb.as_mut() {
                     use std::os::unix::fs::FileExt;
                     let line = json!({"grammar_id": e.id, "rule": r.name, "index": ci, "pre": c.pre, "input": c.s, "post": c.post}).to_string() + "\n";
